@@ -7,6 +7,7 @@ package checks
 // each query on its own.
 
 import (
+	"context"
 	"database/sql"
 	"fmt"
 	"os"
@@ -124,7 +125,13 @@ func poolHistories(r *ev.Run, prop string) {
 			if !valid(seq) || poolHung.Load() {
 				return
 			}
-			poolRun(r, prop, path, seq, want)
+			poolRun(r, prop, path, seq, want, "pool")
+			if len(seq) < depth {
+				// the same history on ONE connection of the pool (sql.Conn) and inside a transaction: result sets that
+				// are open at the same time share whatever the driver keeps per connection
+				poolRun(r, prop, path, seq, want, "conn")
+				poolRun(r, prop, path, seq, want, "tx")
+			}
 			if len(seq) < depth {
 				for o := 0; o < n; o++ {
 					rec(append(append([]int{}, seq...), o))
@@ -147,9 +154,12 @@ func poolNames(seq []int) []string {
 	return out
 }
 
-func poolRun(r *ev.Run, prop, path string, seq []int, want map[string][][]interface{}) {
+func poolRun(r *ev.Run, prop, path string, seq []int, want map[string][][]interface{}, mode string) {
 	names := poolNames(seq)
-	art := map[string]interface{}{"family": "pool-history", "sequence": names}
+	art := map[string]interface{}{"family": "pool-history", "sequence": names, "on": mode}
+	if mode != "pool" {
+		names = append([]string{"[" + mode + "]"}, names...)
+	}
 	r.Eval(1)
 	r.Trans(len(seq))
 	r.State(strings.Join(names, ";"))
@@ -166,6 +176,30 @@ func poolRun(r *ev.Run, prop, path string, seq []int, want map[string][][]interf
 			return
 		}
 		defer db.Close()
+		// q: where the statements go
+		var q interface {
+			Query(string, ...interface{}) (*sql.Rows, error)
+			Exec(string, ...interface{}) (sql.Result, error)
+			Prepare(string) (*sql.Stmt, error)
+		} = db
+		switch mode {
+		case "conn":
+			c, err := db.Conn(context.Background())
+			if err != nil {
+				fail(prop+":pool-history:open", err.Error())
+				return
+			}
+			defer c.Close()
+			q = connQ{c}
+		case "tx":
+			tx, err := db.Begin()
+			if err != nil {
+				fail(prop+":pool-history:open", err.Error())
+				return
+			}
+			defer tx.Rollback()
+			q = tx
+		}
 		var sets [2]*poolSet
 		overlapped, failedBefore := false, false
 		read := func(s *poolSet) bool {
@@ -204,7 +238,7 @@ func poolRun(r *ev.Run, prop, path string, seq []int, want map[string][][]interf
 			op := poolAlphabet[o]
 			switch op.kind {
 			case 'Q':
-				rows, err := db.Query(op.q)
+				rows, err := q.Query(op.q)
 				if err != nil {
 					fail(prop+":pool-history:query-error", fmt.Sprintf("%v: %q fails: %v (works alone)", names, op.q, err))
 					return
@@ -226,7 +260,7 @@ func poolRun(r *ev.Run, prop, path string, seq []int, want map[string][][]interf
 				finish(sets[op.i], false)
 			case 'E':
 				failedBefore = true
-				rows, err := db.Query(op.q)
+				rows, err := q.Query(op.q)
 				if err == nil {
 					for rows.Next() {
 					}
@@ -238,11 +272,11 @@ func poolRun(r *ev.Run, prop, path string, seq []int, want map[string][][]interf
 				}
 			case 'X':
 				failedBefore = true
-				if _, err := db.Exec(op.q); err == nil {
+				if _, err := q.Exec(op.q); err == nil {
 					fail(prop+":pool-history:exec-accepted", fmt.Sprintf("%v: Exec(%q) reports success", names, op.q))
 				}
 			case 'P':
-				st, err := db.Prepare(op.q)
+				st, err := q.Prepare(op.q)
 				if err != nil {
 					fail(prop+":pool-history:prepare-error", fmt.Sprintf("%v: Prepare(%q): %v", names, op.q, err))
 					return
@@ -280,4 +314,17 @@ func poolRun(r *ev.Run, prop, path string, seq []int, want map[string][][]interf
 	if sig != "" {
 		r.Violation(sig, what, art)
 	}
+}
+
+// connQ gives a pinned connection the method set of *sql.DB / *sql.Tx
+type connQ struct{ c *sql.Conn }
+
+func (c connQ) Query(q string, a ...interface{}) (*sql.Rows, error) {
+	return c.c.QueryContext(context.Background(), q, a...)
+}
+func (c connQ) Exec(q string, a ...interface{}) (sql.Result, error) {
+	return c.c.ExecContext(context.Background(), q, a...)
+}
+func (c connQ) Prepare(q string) (*sql.Stmt, error) {
+	return c.c.PrepareContext(context.Background(), q)
 }
